@@ -277,7 +277,9 @@ def main(argv=None):
             (prop, p, v['monitor']))
     return 1
   if missed or failed or agg['inconclusive']:
-    if missed:
+    if missed or agg['counters'].get('job_exceptions', 0):
+      for note in agg['inconclusive'][:3]:
+        print('  note:', note[-800:])
       print('INCONCLUSIVE property=%s floors missed: %s' % (prop, missed))
       for j, s in failed[:5]:
         print('  failed job', j.get('kind'), j['_idx'], s)
